@@ -199,6 +199,12 @@ func (t *Queue[T]) Poll(waitIfEmpty bool) T {
 			// immediately return the value if the pending timeouts are supposed to be ignored
 			if t.shutdownFlags.HasBits(IgnorePendingTimeouts) {
 				timeutil.CleanupTimer(timer)
+
+				// we do not want to return cancelled elements
+				if polledElement.Value.isCanceled() {
+					continue
+				}
+
 				return polledElement.Value.Value
 			}
 
@@ -211,6 +217,11 @@ func (t *Queue[T]) Poll(waitIfEmpty bool) T {
 
 			// return the result after the time is reached
 			case <-timer.C:
+				// the element might have been cancelled at the same time (select picks randomly among ready cases)
+				if polledElement.Value.isCanceled() {
+					continue
+				}
+
 				return polledElement.Value.Value
 			}
 
@@ -221,6 +232,11 @@ func (t *Queue[T]) Poll(waitIfEmpty bool) T {
 
 		// return the result after the time is reached
 		case <-timer.C:
+			// the element might have been cancelled at the same time (select picks randomly among ready cases)
+			if polledElement.Value.isCanceled() {
+				continue
+			}
+
 			return polledElement.Value.Value
 		}
 	}
@@ -249,6 +265,16 @@ type QueueElement[T any] struct {
 	timedQueue *Queue[T]
 	cancel     chan byte
 	rawElem    *generalheap.HeapElement[HeapKey, *QueueElement[T]]
+}
+
+// isCanceled returns true if the element was canceled.
+func (timedQueueElement *QueueElement[T]) isCanceled() bool {
+	select {
+	case <-timedQueueElement.cancel:
+		return true
+	default:
+		return false
+	}
 }
 
 // Cancel removed the given element from the queue and cancels its execution.
